@@ -15,3 +15,24 @@ Proof.
   destruct (Z.shiftr (size * 8) 3 mod 2 ?= 1) eqn:C; destruct (Z.shiftr (size * 8) 3 mod 2 =? 0) eqn:E; cbn [negb];
     try reflexivity; try (apply Z.compare_eq in C; lia); try (rewrite Z.compare_lt_iff in C; lia); try (rewrite Z.compare_gt_iff in C; lia).
 Qed.
+
+(* HostKeyTest.perform_test(): the whole size-rating block (`if hostkey_modulus_size > 0 or ca_modulus_size > 0:` with its thresholds, the
+   certificate / non-certificate split, the ssh-dss exception, the CA notes and the NIST-curve CA failure), translated statement by statement from the
+   current source (T1c), yields the model's size_notes for every key type, role flag, size and CA type. *)
+From VModel Require Import Rating.
+Lemma mem_nil s : mem s [] = false. Proof. reflexivity. Qed.
+Lemma mem_one s x : mem s [x] = String.eqb s x. Proof. cbn [mem]. destruct (String.eqb s x); reflexivity. Qed.
+Lemma tie_hostkey_notes : forall name cert hs cat cs, size_notes name cert hs cat cs = src_hostkey_notes name cert hs cat cs.
+Proof.
+  intros name cert hs cat cs.
+  unfold size_notes, src_hostkey_notes, is_ecc_host, is_ecc, note_small, note_nsa_ca, t_ecdsa_prefix,
+         hk_min_good_rsa, hk_min_warn_rsa, hk_min_good_ecc, hk_min_warn_ecc.
+  cbv zeta. rewrite !Z.gtb_ltb.
+  generalize (z_to_string hs) (z_to_string cs). intros zh zc.
+  destruct (starts_with "ssh-ed25519" name || starts_with "ssh-ed448" name || starts_with "ecdsa-sha2-nistp" name);
+  destruct (starts_with "ssh-ed25519" cat); destruct (starts_with "ecdsa-sha2-nistp" cat);
+  destruct cert; destruct (String.eqb name "ssh-dss"); cbn [orb andb negb Bool.eqb];
+  repeat match goal with
+         | |- context [?a <? ?b] => destruct (a <? b); cbn [orb andb negb]
+         end; reflexivity.
+Qed.
